@@ -291,7 +291,7 @@ func TestVerifC08(t *testing.T) {
 
 func c08Budget(run *vlib.Run) time.Duration {
 	if run.Single() {
-		return 600 * time.Second
+		return 180 * time.Second
 	}
 	return 60 * time.Second
 }
